@@ -16,7 +16,11 @@ func constructSet(d *drv) {
 	case "HashSet":
 		bindHashSet(d, hashset.New[int]())
 	case "TreeSet":
-		bindTreeSet(d, treeset.NewWith[int](d.kf))
+		if d.natural {
+			bindTreeSet(d, treeset.New[int]())
+		} else {
+			bindTreeSet(d, treeset.NewWith[int](d.kf))
+		}
 	case "LinkedHashSet":
 		bindLinkedHashSet(d, linkedhashset.New[int]())
 	}
